@@ -7,6 +7,7 @@
   HTTP client: client/http-client/src/client.rs:489-523 (placeholders sized from the request's id
                range, fill by `id - start`, counters per entry).
 
+  Typed variants (`wsBatchT`, `httpBatchT`): the caller's result type enters as a decoder `δ`.
   Replies are already-decoded `Response`s (Model/Wire.lean) in the order the server wrote them.
 -/
 import JrpcVerif.Model.Wire
@@ -156,6 +157,87 @@ def httpBatch (start n : Nat) (replies : List Response) : BRes BatchResult :=
   | .err e => .err e
   | .ok slots =>
     .ok { entries := slots, successes := countResults slots, failures := slots.length - countResults slots }
+
+/-! ### typed results: every `result` is decoded into the caller's type `R`
+
+`δ` stands for `serde_json::from_str::<R>` on the raw text of one `result` (`none` = it cannot be
+decoded).  WS: mod.rs:586-602 (loop over the positional raw responses, `map_err(ParseError)?`);
+HTTP: client.rs:496-517 (decoded inside the fill loop, before the slot is looked up). -/
+
+inductive TEntry (ρ : Type) where
+  | ok (v : ρ)
+  | err (e : ErrObj)
+  deriving DecidableEq, Repr
+
+/-- `BatchResponse<R>` -/
+structure TBatchResult (ρ : Type) where
+  entries : List (TEntry ρ)
+  successes : Nat
+  failures : Nat
+  deriving DecidableEq, Repr
+
+/-- outcome of a typed `batch_request` -/
+inductive TRes (α : Type) where
+  | ok (a : α)
+  | err (e : BErr)
+  | parse                       -- `Error::ParseError`: some `result` is not an `R`
+  deriving DecidableEq, Repr
+
+def decodePayload {ρ : Type} (δ : Text → Option ρ) : Payload → Option (TEntry ρ)
+  | .result v => (δ v).map .ok
+  | .error e => some (.err e)
+
+/-- all entries decoded, or `none` as soon as one cannot be (`?` inside the loop) -/
+def decodeEntries {ρ : Type} (δ : Text → Option ρ) : List Payload → Option (List (TEntry ρ))
+  | [] => some []
+  | p :: r =>
+    match decodePayload δ p with
+    | none => none
+    | some e =>
+      match decodeEntries δ r with
+      | none => none
+      | some es => some (e :: es)
+
+def TEntry.isOk {ρ : Type} : TEntry ρ → Bool
+  | .ok _ => true
+  | .err _ => false
+
+def countOk {ρ : Type} : List (TEntry ρ) → Nat
+  | [] => 0
+  | e :: r => (if e.isOk then 1 else 0) + countOk r
+
+/-- mod.rs:586-603 on the raw responses handed over by the background task -/
+def wsTyped {ρ : Type} (δ : Text → Option ρ) (rs : List Response) : TRes (TBatchResult ρ) :=
+  match decodeEntries δ (rs.map (·.payload)) with
+  | none => .parse
+  | some es => .ok { entries := es, successes := countOk es, failures := es.length - countOk es }
+
+def wsBatchT {ρ : Type} (δ : Text → Option ρ) (start n : Nat) (replies : List Response) : TRes (TBatchResult ρ) :=
+  match wsBatchRaw start n replies with
+  | .err e => .err e
+  | .ok rs => wsTyped δ rs
+
+/-- client.rs:496-517 with a fallible decoder: id, then `from_str::<R>`, then the slot -/
+def httpFillT {ρ : Type} (δ : Text → Option ρ) (start : Nat) : List (TEntry ρ) → List Response → TRes (List (TEntry ρ))
+  | slots, [] => .ok slots
+  | slots, rp :: rest =>
+    match idNum rp.id with
+    | none => .err (.invalidId rp.id)
+    | some id =>
+      match decodePayload δ rp.payload with
+      | none => .parse
+      | some e =>
+        if id < start then .err (.notPendingNum id)
+        else
+          match setAt slots (id - start) e with
+          | none => .err (.notPendingNum id)
+          | some slots' => httpFillT δ start slots' rest
+
+def httpBatchT {ρ : Type} (δ : Text → Option ρ) (start n : Nat) (replies : List Response) : TRes (TBatchResult ρ) :=
+  match httpFillT δ start (List.replicate n (TEntry.err placeholderErr)) replies with
+  | .err e => .err e
+  | .parse => .parse
+  | .ok slots => .ok { entries := slots, successes := countOk slots, failures := slots.length - countOk slots }
 
 /-! ### specification side: which reply belongs in slot `k` -/
 
